@@ -88,7 +88,10 @@ func runC14(c *Ctx) {
 					for _, maskOK := range []bool{true, false} {
 						for _, readFinal := range []int64{0, 1} {
 							for _, comp := range []bool{false, true} {
-								for lf := 0; lf < 4; lf++ { // 0: <=125, 1: 126 form, 2: 127 form, 3: 127 form with the top bit set
+								for lf := 0; lf < 5; lf++ { // 0: <=125, 1: 126 form, 2: 127 form, 3: 127 form with the top bit set, 4: a Close frame with a 1-byte body
+									if lf == 4 && opcode != 8 {
+										continue
+									}
 									total++
 									isCtl := opcode >= 8 && opcode <= 10
 									var want verdict
@@ -99,7 +102,7 @@ func runC14(c *Ctx) {
 										want = unspecified
 									case (opcode >= 3 && opcode <= 7) || opcode >= 11:
 										want = mustFail
-									case isCtl && (lf != 0 || fin == 0):
+									case isCtl && ((lf != 0 && lf != 4) || fin == 0):
 										want = mustFail
 									case (opcode == 1 || opcode == 2) && readFinal == 0:
 										want = mustFail
@@ -108,6 +111,9 @@ func runC14(c *Ctx) {
 									case !maskOK:
 										want = mustFail
 									case lf == 3:
+										want = mustFail
+									case lf == 4:
+										// RFC 6455 5.5.1: if there is a body, its first two bytes are the status code - one byte is no code
 										want = mustFail
 									default:
 										want = mustProceed
@@ -140,6 +146,9 @@ func runC14(c *Ctx) {
 										dom["len64"] = Dom{W: 40, Lo: 65536, Hi: -1}
 										spec = abs.Cat(b0, abs.Pack(abs.K(1, uint64(mask)), abs.K(7, 127)), abs.Pack(abs.K(24, 0), abs.F("len64", 39, 0)))
 										payload = abs.LAtom("len64")
+									case 4:
+										spec = abs.Cat(b0, abs.Pack(abs.K(1, uint64(mask)), abs.K(7, 1)))
+										payload = abs.LConst(1)
 									case 3:
 										dom["low63"] = Dom{W: 63, Hi: -1}
 										spec = abs.Cat(b0, abs.Pack(abs.K(1, uint64(mask)), abs.K(7, 127)), abs.Pack(abs.K(1, 1), abs.F("low63", 62, 0)))
@@ -181,7 +190,7 @@ func runC14(c *Ctx) {
 									}
 									key := fmt.Sprintf("websocket|advanceFrame|role=%s,opcode=%d,fin=%d,rsv=%s,mask=%s,open-message=%v,deflate=%v,len=%s",
 										map[int64]string{0: "client", 1: "server"}[isServer], opcode, fin, []string{"none", "rsv1", "rsv2"}[rsv],
-										map[bool]string{true: "ok", false: "wrong"}[maskOK], readFinal == 0, comp, []string{"<=125", "16-bit", "64-bit", "64-bit-msb-set"}[lf])
+										map[bool]string{true: "ok", false: "wrong"}[maskOK], readFinal == 0, comp, []string{"<=125", "16-bit", "64-bit", "64-bit-msb-set", "close-with-1-byte-body"}[lf])
 									got := "?"
 									ok := false
 									switch {
@@ -629,6 +638,11 @@ func checkWSCtlPayload(c *Ctx) {
 			R.Check(ok, "C14.ctlpayload", "websocket|advanceFrame|"+h+"-gets-payload", P.Pos(adv.Pos()), h+" receives the frame's payload", h+" is not called with the frame's payload", nil)
 		}
 	}
+	// a ping of the largest legal size (125 bytes) must be answerable: WriteControl writes a 125-byte control frame
+	lmax := newLayout(c, "C14.ctlpayload")
+	lmax.e.Contract = wsContract(P)
+	lmax.e.MaxDepth = 6
+	lmax.encoder("websocket", "(*Conn).WriteControl", wsWriteControlVariants(true), wsWriteControlOut)
 	if sp := P.Func("websocket", "(*Conn).SetPingHandler"); R.Anchor(sp != nil && len(sp.AnonFuncs) > 0, "C14.ctlpayload", "websocket.(*Conn).SetPingHandler$1") {
 		h := sp.AnonFuncs[0]
 		ok := false
